@@ -1,13 +1,14 @@
 /-
 `vmodel`: line-protocol driver of the executable Lean model.
 Reads one case per line on stdin, prints `<stream> <id> MODEL <observation>` per case.
-Usage: `vmodel [--fixes <digits 0/1: f1 f2 f3 f4 f5 f2b f8 f10>]`.
+Usage: `vmodel [--fixes <digits 0/1: f1 f2 f3 f4 f5 f2b f8 f10 f14>]`.
 -/
 import Vibrato.Driver.Tok
 import Vibrato.Driver.Corpus
 import Vibrato.Driver.Rewriter
 import Vibrato.Driver.Image
 import Vibrato.Driver.LexCsv
+import Vibrato.Driver.Conn
 
 open Vibrato Vibrato.Driver
 
@@ -16,7 +17,7 @@ structure DState where
 
 def parseFixes (s : String) : Fixes :=
   let b (i : Nat) : Bool := (s.toList.getD i '1') == '1'
-  ⟨b 0, b 1, b 2, b 3, b 4, b 5, b 6, b 7⟩
+  ⟨b 0, b 1, b 2, b 3, b 4, b 5, b 6, b 7, b 8⟩
 
 /-- the tokens of a case before the implementation's observation -/
 def input (rest : List String) : List String := rest.takeWhile (· ≠ "IMPL")
@@ -50,6 +51,14 @@ def stepLine (fx : Fixes) (st : DState) (line : String) : DState × String :=
     -- `interleave_independent` + `reset_then_tokenize_fresh` (Props/C04): every worker's result
     -- equals the sequential fresh-worker result, whatever the interleaving
     (st, s!"threads {id} MODEL same-as-sequential")
+  | "conn" :: id :: rest =>
+    let impl := " ".intercalate (rest.dropWhile (· ≠ "IMPL") |>.drop 1 |>.takeWhile (· ≠ "##"))
+    (st, s!"conn {id} MODEL {Conn.handle fx.f14 (input rest) impl}")
+  | "conn3" :: id :: _ =>
+    -- equal cost functions (raw_cost_eq_sum, dual_eq_raw_of_fits) give equal lattices (C06.lattice_relabel
+    -- with the identity): the three dictionaries tokenize identically
+    (st, s!"conn3 {id} MODEL same")
+  | "scorer" :: id :: rest => (st, s!"scorer {id} MODEL {Conn.handleScorer (input rest)}")
   | "corpus" :: id :: rest => (st, s!"corpus {id} MODEL {Corpus.handle (input rest)}")
   | s :: id :: _ => (st, s!"{s} {id} MODEL unknown-stream")
   | _ => (st, "? ? MODEL badline")
